@@ -18,8 +18,8 @@ RULE = (
     "Hypothesis rule based state machine: histories of up to 8 ingesting "
     "runs (own holder instance, drawn batch size 1..7, 1..6 occurrences over "
     "5 ids) against one sqlite file with the same comparison after every "
-    "run (non-trivial there: >=2 runs with a repeated id); plus one fixed "
-    "large history (1100 ids, batch size 1000, ingested twice, then again "
+    "run (non-trivial there: >=2 runs with a repeated id); plus "
+    "a fixed family of distinct ids that collide pairwise under common 32-bit digests (crc32, adler32, xxh32, truncated md5/sha1/xxh64) and one fixed large history (1100 ids, batch size 1000, ingested twice, then again "
     "with new spans mixed in). Non-trivial: some batch "
     "contains both a duplicate id and a non-duplicate id. Distinct by the "
     "serialised stream + split.")
@@ -304,6 +304,41 @@ def shrinker(case):
         yield {"events": ev}
 
 
+def colliding_id_events():
+    """Spans whose (distinct, hex-looking) ids collide pairwise under crc32,
+    adler32, xxh32, and the first four bytes of md5 / sha1 - found by a
+    deterministic birthday search over 400 000 candidate ids."""
+    import hashlib
+    import zlib
+    fns = {"crc32": lambda b: zlib.crc32(b),
+           "adler32": lambda b: zlib.adler32(b),
+           "md5_4": lambda b: hashlib.md5(b).digest()[:4],
+           "sha1_4": lambda b: hashlib.sha1(b).digest()[:4]}
+    try:
+        import xxhash
+        fns["xxh32"] = lambda b: xxhash.xxh32_intdigest(b)
+        fns["xxh64_low32"] = lambda b: xxhash.xxh64_intdigest(b) & 0xFFFFFFFF
+    except ImportError:
+        pass
+    ids = []
+    for name, fn in sorted(fns.items()):
+        seen, found = {}, 0
+        for i in range(400000):
+            sid = hashlib.sha256(b"span%d" % i).hexdigest()[:16]
+            d = fn(sid.encode())
+            if d in seen:
+                ids += [seen[d], sid]
+                found += 1
+                if found == 3:
+                    break
+            else:
+                seen[d] = sid
+    ids = list(dict.fromkeys(ids))
+    return [[sid, None if k % 4 == 0 else ids[k - 1], "ABC"[k % 3],
+             f"t{k // 4}", "wf", k, k + 3, "app"]
+            for k, sid in enumerate(ids)]
+
+
 def plan(tier):
     return {"shards": 16, "budget_s": 300 if tier == "quick" else 3000,
             "coverage": {"bounds": "<=14 occurrences over <=6 ids, all batch "
@@ -341,6 +376,25 @@ def run_shard(ctx):
         except Violation as v:
             ctx.violation(big, "[large history] " + str(v))
             return
+    if ctx.shard == 3 % ctx.nshards:
+        # distinct span ids that collide under common 32-bit digests: "one
+        # record per distinct span id" must not depend on any digest of it
+        evs = colliding_id_events()
+        for tag, steps in (
+                ("one batch", [{"events": evs, "batch": 1000}]),
+                ("batch size 2", [{"events": evs, "batch": 2}]),
+                ("two runs", [{"events": evs[::2], "batch": 7},
+                              {"events": evs, "batch": 7}])):
+            case = {"steps": steps}
+            ctx.record({"steps": f"digest-colliding ids, {tag}, see "
+                        "checks/c10.py"}, True,
+                       ["ids_colliding_under_32bit_digests", "stateful"])
+            try:
+                check_steps(case)
+            except Violation as v:
+                ctx.violation(case, f"[digest-colliding ids, {tag}] "
+                              + str(v))
+                return
     if ctx.run_given(case_strategy(), fn,
                      150 if ctx.tier == "quick" else 2500, shrinker=shrinker):
         return
